@@ -14,7 +14,7 @@
 (*      Reject, in a strict and a lenient flavour, from which the three-valued verdict             *)
 (*      MustReject / MustAcceptWith(x) / Either is derived                              [C10];     *)
 (*   6. the XML wire format: ToX and the reference FromX (same flavours)                [C10];     *)
-(*   7. document mutation operators for both formats (G and M use the same ones)        [C10];     *)
+(*   7. (in SdkMut.tla) document mutation operators for both formats                   [C10];     *)
 (*   8. constant sets with superset_of (ConstantSetClosure) and enumeration <-> text    [C30].     *)
 (*                                                                                                 *)
 (* Strings that carry arbitrary text are Seq(Int) of code points ("cps"); names of the             *)
@@ -105,10 +105,10 @@ PrepProps(ps) == T([i \in 1..Len(ps) |-> PrepProp(ps[i])])
 ClassInfo(r, n) ==
     [name |-> RawClass(r, n).name,
      abstract |-> RawClass(r, n).abstract,
-     ancestors |-> Ancestors0(r, n),
+     ancestors |-> ToSet(SetToSeq(Ancestors0(r, n))),                  \* (ToSet o SetToSeq: an explicit set instead of a lazy comprehension)
      props |-> PrepProps(AllProps0(r, n)),
      defaults |-> AllDefaults0(r, n),
-     concrete |-> ConcreteOf0(r, n),
+     concrete |-> ToSet(SetToSeq(ConcreteOf0(r, n))),
      \* de-serialization of a slot of class n must discriminate iff something else than n itself can be there
      dispatch |-> ConcreteOf0(r, n) # {n},
      \* the setting is inherited
@@ -117,7 +117,10 @@ ClassInfo(r, n) ==
      tag |-> XmlClassName(RawClass(r, n).name),
      visit |-> VisitName(RawClass(r, n).name),
      transform |-> TransformName(RawClass(r, n).name)]
-Prep(r) == [id |-> r.id, root |-> r.root, enums |-> r.enums, classes |-> r.classes, info |-> [n \in RawNames(r) |-> ClassInfo(r, n)]]
+\* (built with :> and @@ so that TLC holds an explicit function: a constructor [n \in S |-> e] would be re-evaluated at every application)
+RECURSIVE InfoTable(_, _)
+InfoTable(r, k) == IF k = 0 THEN <<>> ELSE (r.classes[k].name.src :> ClassInfo(r, r.classes[k].name.src)) @@ InfoTable(r, k - 1)
+Prep(r) == [id |-> r.id, root |-> r.root, enums |-> r.enums, classes |-> r.classes, info |-> InfoTable(r, Len(r.classes))]
 
 ClassNames(m) == DOMAIN m.info
 AllProps(m, n) == m.info[n].props
@@ -398,6 +401,8 @@ FromXValue(m, e, t, lenient) ==
             IF e.ns # "ok" \/ ~BlankText(e.text) THEN Reject
             ELSE FinishList(T([j \in 1..Len(e.kids) |->
                     IF t.item.t = "cls" THEN FromXAsInst(m, e.kids[j], t.item.name, lenient)
+                    \* items of primitive type: <v> in the document's namespace; a lenient reader does not look at the tag
+                    ELSE IF lenient THEN FromXText(m, [e.kids[j] EXCEPT !.ns = "ok"], t.item, lenient)
                     ELSE IF e.kids[j].tag = ITEM THEN FromXText(m, e.kids[j], t.item, lenient) ELSE Reject]))
       [] OTHER -> FromXText(m, e, t, lenient)
 \* the last element with the tag of property p (a lenient reader lets the last one win), or none
@@ -431,177 +436,6 @@ XmlRepresentable(m, v) ==
       [] v.k = "list" -> \A i \in 1..Len(v.items) : XmlRepresentable(m, v.items[i])
       [] v.k = "inst" -> \A i \in 1..Len(v.fields) : XmlRepresentable(m, v.fields[i].v)
       [] OTHER -> TRUE
-
------------------------------------------------------------------------------
-(* 7. document mutations  [C10]                                                                    *)
-(* A mutation yields [kind, at, doc]: kind = the name of the mutation action, at = what it hit     *)
-(* (for the structural fingerprint of a finding), doc = the mutated document.  The mutations       *)
-(* are applied at every position of the document (recursively), so that nested objects, list items *)
-(* and dispatching slots are all hit.  They are total: on a document that does not look like the   *)
-(* serialization of a value of the slot's type (e.g. after an earlier mutation) they simply find    *)
-(* fewer positions.                                                                                *)
-
-Mut(kind, at, doc) == [kind |-> kind, at |-> at, doc |-> doc]
-\* lift the mutants of a sub-document into the enclosing document
-Lift(sub, Put(_)) == T([q \in 1..Len(sub) |-> Mut(sub[q].kind, sub[q].at, Put(sub[q].doc))])
-
-BADB64 == << <<65>>, <<65, 65, 65>>, <<65, 42, 65, 61>>, <<65, 65, 61, 61, 65, 65, 65, 65>>, <<65, 233, 65, 65>>, <<61, 61, 61, 61>>, <<65, 82, 61, 61>>, <<65, 65, 32, 65, 65>> >>
-\*            "A"     "AAA"          "A*A="              "AA==AAAA"                         "AéAA"                "===="              "AR==" (bits)       "AA AA"
-JWRONG == << JBool(TRUE), JNum(TRUE, "1"), JNum(FALSE, "1.5"), JStr(<<120>>), JArr(<<>>), JObj(<<>>), JArr(<<JNull>>), JObj(<< [key |-> "x", val |-> JNull] >>) >>
-FitsJson(t, d) ==
-    CASE t.t = "bool" -> d.j = "bool"
-      [] t.t = "int" -> d = JNum(TRUE, "1")
-      [] t.t = "float" -> d.j = "num"
-      [] t.t = "str" -> d.j = "str"
-      [] t.t = "list" -> d = JArr(<<>>)
-      [] OTHER -> FALSE
-WrongJson1(t, ds) == T([i \in 1..Len(ds) |-> Mut("Wrong_json_type", t.t, ds[i])])
-WrongJson(t) == WrongJson1(t, SelectSeq(JWRONG, LAMBDA d : ~FitsJson(t, d)))
-
-RECURSIVE JMutants(_, _, _)
-JObjMutants(m, doc, t, c, ps, mem, where, others) ==
-    LET isProp(i) == \E q \in 1..Len(ps) : ps[q].key = mem[i].key
-        isMt(i) == mem[i].key = MODELTYPE
-        propOf(i) == ps[CHOOSE q \in 1..Len(ps) : ps[q].key = mem[i].key]
-        put(i, v) == JObj(ReplaceAt(mem, i, [key |-> mem[i].key, val |-> v]))
-    IN  \* drop a member
-        Flat(T([i \in 1..Len(mem) |->
-                IF isMt(i) THEN << Mut("Missing_modelType", where, JObj(RemoveAt(mem, i))) >>
-                ELSE IF ~isProp(i) THEN <<>>
-                ELSE IF propOf(i).opt THEN << Mut("Drop_optional", propOf(i).type.t, JObj(RemoveAt(mem, i))) >>
-                ELSE << Mut("Drop_required", propOf(i).type.t, JObj(RemoveAt(mem, i))) >>]))
-        \* null for a member
-        \o Flat(T([i \in 1..Len(mem) |->
-                IF isMt(i) THEN << Mut("Wrong_modelType", where \o "_null", put(i, JNull)) >>
-                ELSE IF ~isProp(i) \/ mem[i].val.j = "null" THEN <<>>
-                ELSE IF propOf(i).opt THEN << Mut("Null_for_optional", propOf(i).type.t, put(i, JNull)) >>
-                ELSE << Mut("Null_for_required", propOf(i).type.t, put(i, JNull)) >>]))
-        \* wrong modelType
-        \o Flat(T([i \in 1..Len(mem) |->
-                IF ~isMt(i) THEN <<>>
-                ELSE T([q \in 1..Len(others) |-> Mut("Wrong_modelType", where \o "_other_class", put(i, JName(others[q])))])
-                     \o << Mut("Wrong_modelType", where \o "_unknown", put(i, JName("Bogus"))),
-                           Mut("Wrong_modelType", where \o "_not_a_string", put(i, JNum(TRUE, "1"))),
-                           Mut("Wrong_modelType", where \o "_lower_case", put(i, JName(m.info[c].tag))) >>]))
-        \* extra members
-        \o (IF HasKey(doc, "bogusProperty") THEN <<>>
-            ELSE << Mut("Extra_property", "unknown_key", JObj(Append(mem, [key |-> "bogusProperty", val |-> JNum(TRUE, "1")]))),
-                    Mut("Extra_property", "unknown_key_first", JObj(<< [key |-> "bogusProperty", val |-> JNull] >> \o mem)) >>)
-        \o (IF HasKey(doc, MODELTYPE) THEN <<>> ELSE << Mut("Extra_property", "modelType_on_class_without", JObj(Append(mem, [key |-> MODELTYPE, val |-> JName("Bogus")]))) >>)
-        \* truncate the object after its first member / reverse the members (order is irrelevant in JSON)
-        \o (IF Len(mem) > 1 THEN << Mut("Truncate", "object", JObj(SubSeq(mem, 1, 1))), Mut("Reorder", "object", JObj(Reverse(mem))) >> ELSE <<>>)
-        \* recursion into the members
-        \o Flat(T([i \in 1..Len(mem) |->
-                IF ~isProp(i) \/ isMt(i) THEN <<>>
-                ELSE Lift(JMutants(m, mem[i].val, propOf(i).type), LAMBDA d : put(i, d))]))
-\* the concrete class of the serialized instance: named by modelType, else the slot's own class, else any that fits
-JObjMutants2(m, doc, t, c) ==
-    JObjMutants(m, doc, t, c, AllProps(m, c), doc.members, IF NeedsDispatch(m, t.name) THEN "dispatch" ELSE "no_dispatch",
-                SetToSeq({m.info[d].mt : d \in ClassNames(m) \ {c}}))
-JObjMutants1(m, doc, t, cs) ==
-    JObjMutants2(m, doc, t, IF cs # {} THEN AnyOf(cs) ELSE IF ~m.info[t.name].abstract THEN t.name ELSE AnyOf(ConcreteOf(m, t.name)))
-\* doc stands in a slot of type t
-JMutants(m, doc, t) ==
-    WrongJson(t) \o
-    (CASE t.t = "bytes" -> T([i \in 1..Len(BADB64) |-> Mut("Bad_base64", "bytes", JStr(BADB64[i]))])
-      [] t.t = "float" -> << Mut("Int_for_float", "float", JNum(TRUE, "2")) >>
-      [] t.t = "enum" /\ doc.j = "str" ->
-            << Mut("Bad_enum_text", "enum", JStr(doc.cps \o <<32>>)), Mut("Bad_enum_text", "enum", JStr(<<32>> \o doc.cps)), Mut("Bad_enum_text", "enum", JStr(<<0>>)) >>
-      [] t.t = "list" /\ doc.j = "arr" ->
-            Flat(T([i \in 1..Len(doc.items) |-> Lift(JMutants(m, doc.items[i], t.item), LAMBDA d : JArr(ReplaceAt(doc.items, i, d)))]))
-            \o (IF Len(doc.items) > 0 THEN << Mut("Truncate", "list", JArr(SubSeq(doc.items, 1, Len(doc.items) - 1))),
-                                             Mut("Null_item", "list", JArr(ReplaceAt(doc.items, 1, JNull))) >> ELSE <<>>)
-            \o (IF Len(doc.items) > 1 THEN << Mut("Swap_items", "list", JArr(SwapAt(doc.items, 1, 2))) >> ELSE <<>>)
-      [] t.t = "cls" /\ doc.j = "obj" ->
-            JObjMutants1(m, doc, t, {c \in ConcreteOf(m, t.name) : MemberOrAbsent(doc, MODELTYPE) = JName(m.info[c].mt)})
-      [] OTHER -> <<>>)
-
-\* mutations of the root document of an instance of the root class
-JRootMutants(m, doc, n) ==
-    JMutants(m, doc, TCls(n))
-    \o << Mut("Wrong_root_kind", "array_around", JArr(<<doc>>)), Mut("Wrong_root_kind", "null", JNull) >>
-
-(* XML *)
-BOGUS == XNode("bogusElement", XCps(<<120>>), <<>>)
-XWrongText(t) ==
-    CASE t.t = "bool" -> << XCps(<<121, 101, 115>>), XTok("int", "2"), XNoText, XCps(<<84, 114, 117, 101>>) >>          \* "yes", 2, nothing, "True"
-      [] t.t = "int" -> << XCps(<<120>>), XTok("float", "1.5"), XNoText, XTok("bool", "true") >>
-      [] t.t = "float" -> << XCps(<<120>>), XNoText, XTok("bool", "true"), XCps(<<49, 44, 53>>) >>                      \* "x", nothing, true, "1,5"
-      [] t.t = "bytes" -> T([i \in 1..Len(BADB64) |-> XCps(BADB64[i])])
-      [] t.t = "enum" -> << XCps(<<126, 110, 111, 126>>), XTok("int", "1") >>
-      [] OTHER -> <<>>
-XWrongTexts(e, t, texts) == T([q \in 1..Len(texts) |-> Mut(IF t.t = "bytes" THEN "Bad_base64" ELSE "Wrong_text", t.t, [e EXCEPT !.text = texts[q]])])
-
-RECURSIVE XSeqMutants(_, _, _)
-RECURSIVE XValueMutants(_, _, _)
-XDispatchMutants(m, e, inner, c, others) ==
-    Lift(XSeqMutants(m, inner, c), LAMBDA d : [e EXCEPT !.kids = <<d>>])
-    \o << Mut("Missing_discriminator", "dispatch", [e EXCEPT !.kids = inner.kids]),
-          Mut("Wrong_discriminator", "unknown", [e EXCEPT !.kids = <<[inner EXCEPT !.tag = "bogus"]>>]),
-          Mut("Wrong_discriminator", "model_type_case", [e EXCEPT !.kids = <<[inner EXCEPT !.tag = m.info[c].mt]>>]),
-          Mut("Two_discriminators", "dispatch", [e EXCEPT !.kids = <<inner, inner>>]),
-          Mut("Wrong_namespace", "discriminator", [e EXCEPT !.kids = <<[inner EXCEPT !.ns = "other"]>>]) >>
-    \o T([q \in 1..Len(others) |-> Mut("Wrong_discriminator", "other_class", [e EXCEPT !.kids = <<[inner EXCEPT !.tag = others[q]]>>])])
-\* e is the property (or item) element of a value of type t; result: mutated elements
-XValueMutants(m, e, t) ==
-    CASE t.t = "cls" ->
-            IF ~NeedsDispatch(m, t.name) THEN XSeqMutants(m, e, t.name)
-            ELSE IF Len(e.kids) # 1 \/ ~NamesConcrete(m, e.kids[1].tag, t.name) THEN <<>>
-            ELSE XDispatchMutants(m, e, e.kids[1], ConcreteNamed(m, e.kids[1].tag, t.name),
-                                  SetToSeq({m.info[d].tag : d \in ClassNames(m) \ {ConcreteNamed(m, e.kids[1].tag, t.name)}}))
-      [] t.t = "list" ->
-            Flat(T([j \in 1..Len(e.kids) |->
-                Lift(IF t.item.t = "cls"
-                     THEN (IF NamesConcrete(m, e.kids[j].tag, t.item.name) THEN XSeqMutants(m, e.kids[j], ConcreteNamed(m, e.kids[j].tag, t.item.name)) ELSE <<>>)
-                     ELSE XValueMutants(m, e.kids[j], t.item),
-                     LAMBDA d : [e EXCEPT !.kids = ReplaceAt(e.kids, j, d)])]))
-            \o << Mut("Text_in_element_only", "list", [e EXCEPT !.text = XCps(<<120>>)]),
-                  Mut("Whitespace_text", "list", [e EXCEPT !.text = XCps(<<10, 32>>)]),
-                  Mut("Unknown_item", t.item.t, [e EXCEPT !.kids = Append(e.kids, BOGUS)]) >>
-            \o (IF Len(e.kids) > 0 THEN << Mut("Truncate", "list", [e EXCEPT !.kids = SubSeq(e.kids, 1, Len(e.kids) - 1)]),
-                                           Mut("Wrong_namespace", "list_item", [e EXCEPT !.kids = ReplaceAt(e.kids, 1, [e.kids[1] EXCEPT !.ns = "none"])]) >> ELSE <<>>)
-            \o (IF Len(e.kids) > 1 THEN << Mut("Swap_items", "list", [e EXCEPT !.kids = SwapAt(e.kids, 1, 2)]) >> ELSE <<>>)
-            \o (IF Len(e.kids) > 0 /\ t.item.t # "cls" THEN << Mut("Wrong_item_tag", t.item.t, [e EXCEPT !.kids = ReplaceAt(e.kids, 1, [e.kids[1] EXCEPT !.tag = "item"])]) >> ELSE <<>>)
-      [] OTHER ->
-            XWrongTexts(e, t, XWrongText(t))
-            \o << Mut("Element_in_text", t.t, [e EXCEPT !.kids = <<BOGUS>>]) >>
-            \o (IF t.t = "enum" /\ e.text.x = "cps" THEN << Mut("Bad_enum_text", "enum", [e EXCEPT !.text = XCps(e.text.cps \o <<33>>)]) >> ELSE <<>>)
-
-XSeqMutants1(m, node, c, ps, kids) ==
-    LET isProp(k) == \E q \in 1..Len(ps) : ps[q].key = kids[k].tag
-        propOf(k) == ps[CHOOSE q \in 1..Len(ps) : ps[q].key = kids[k].tag]
-    IN  Flat(T([k \in 1..Len(kids) |->
-            IF ~isProp(k) THEN <<>>
-            ELSE IF propOf(k).opt THEN << Mut("Drop_optional", propOf(k).type.t, [node EXCEPT !.kids = RemoveAt(kids, k)]) >>
-            ELSE << Mut("Drop_required", propOf(k).type.t, [node EXCEPT !.kids = RemoveAt(kids, k)]) >>]))
-        \o (IF \E k \in 1..Len(kids) : kids[k].tag = BOGUS.tag THEN <<>>
-            ELSE << Mut("Unknown_element", "property", [node EXCEPT !.kids = Append(kids, BOGUS)]),
-                    Mut("Unknown_element", "property_first", [node EXCEPT !.kids = <<BOGUS>> \o kids]) >>)
-        \o << Mut("Text_in_element_only", "sequence", [node EXCEPT !.text = XCps(<<120>>)]),
-              Mut("Whitespace_text", "sequence", [node EXCEPT !.text = XCps(<<10, 32, 32>>)]) >>
-        \o (IF Len(kids) > 1 THEN << Mut("Misplaced_element", "swapped", [node EXCEPT !.kids = SwapAt(kids, 1, 2)]),
-                                     Mut("Misplaced_element", "duplicated", [node EXCEPT !.kids = Append(kids, kids[1])]) >> ELSE <<>>)
-        \o (IF Len(kids) > 0 THEN << Mut("Wrong_namespace", "property", [node EXCEPT !.kids = ReplaceAt(kids, 1, [kids[1] EXCEPT !.ns = "other"])]),
-                                     Mut("Wrong_namespace", "property_none", [node EXCEPT !.kids = ReplaceAt(kids, Len(kids), [kids[Len(kids)] EXCEPT !.ns = "none"])]) >> ELSE <<>>)
-        \o Flat(T([k \in 1..Len(kids) |->
-                IF ~isProp(k) THEN <<>>
-                ELSE Lift(XValueMutants(m, kids[k], propOf(k).type), LAMBDA d : [node EXCEPT !.kids = ReplaceAt(kids, k, d)])]))
-\* node holds the property elements of an instance of concrete class c
-XSeqMutants(m, node, c) == XSeqMutants1(m, node, c, AllProps(m, c), node.kids)
-
-XRootMutants(m, node, c) ==
-    XSeqMutants(m, node, c)
-    \o << Mut("Wrong_namespace", "root", [node EXCEPT !.ns = "other"]),
-          Mut("Wrong_namespace", "root_none", [node EXCEPT !.ns = "none"]),
-          Mut("Wrong_root_kind", "unknown_tag", [node EXCEPT !.tag = "bogus"]),
-          Mut("Wrong_root_kind", "model_type_case", [node EXCEPT !.tag = m.info[c].mt]) >>
-
-\* expectations per mutation kind (model-checked in MC_Sdk: the reference agrees with what the names promise)
-AlwaysRejectedKinds == {"Drop_required", "Null_for_required", "Wrong_json_type", "Bad_enum_text", "Wrong_root_kind",
-                        "Text_in_element_only", "Wrong_namespace", "Missing_discriminator", "Wrong_discriminator",
-                        "Element_in_text", "Null_item", "Wrong_item_tag", "Two_discriminators", "Unknown_item", "Wrong_text"}
-ToleratedKinds == {"Extra_property", "Null_for_optional", "Unknown_element", "Int_for_float"}
-AcceptedKinds == {"Drop_optional", "Reorder", "Whitespace_text", "Swap_items"}
 
 -----------------------------------------------------------------------------
 (* 8. constants and enumerations  [C30]                                                            *)
